@@ -15,6 +15,7 @@ import inspect
 import math
 import sys
 from pathlib import Path
+from xml.etree import ElementTree
 
 import numpy as np
 
@@ -55,6 +56,36 @@ ALIAS_BASELINE = {
 }
 
 
+# (function, parameter) pairs for which only the DYNAMIC half applies: the static analysis reports a possible write /
+# alias that cannot be excluded from the source alone, for the sound reason given.  Unlike ALLOWED_WRITES /
+# ALIAS_BASELINE these entries permit nothing at run time: a change of the argument or shared memory observed in the
+# dynamic calls is still a violation.  kinds: "write" = may-write report waived, "alias" = may-alias report waived.
+UNPROVED_STATIC = {
+    # --- a function-valued parameter is called: a user callback may do anything to itself and to what it receives
+    ("pewlib.process.peakfinding.cwt", "wavelet"): ("write", "the caller's wavelet function is called (its own state is its business)"),
+    ("pewlib.process.peakfinding.cwt", "windows"): ("write", "wavelet(n, windows[i]): the caller's function receives an element of `windows`"),
+    ("pewlib.process.peakfinding.find_peaks_windowed", "baseline"): ("write", "the caller's baseline function is called (on a fresh padded copy of x)"),
+    ("pewlib.process.peakfinding.find_peaks_windowed", "threshold"): ("write", "the caller's threshold function is called (on a fresh padded copy of x)"),
+    ("pewlib.io.imzml.fast_parse_imzml", "callback"): ("write", "the caller's progress callback is called with the file position"),
+    # --- object state that is not an array, list or dict
+    ("pewlib.io.imzml.Spectrum.get_binary_data", "external_binary"): ("write", "seek/read on the caller's open file handle moves its position; no array, list or dict is touched"),
+    # --- results that hold the caller's immutable objects (Path, tuple): the analysis has one region per argument and
+    #     cannot tell the (new) list from the (shared, immutable) items
+    ("pewlib.io.csv.GenericOption.filter", "paths"): ("alias", "a new list of the caller's Path objects"),
+    ("pewlib.io.csv.GenericOption.sort", "paths"): ("alias", "a new sorted list of the caller's Path objects"),
+    ("pewlib.io.csv.GenericOption.sortkey", "path"): ("alias", "the sort key of the generic option is the Path itself"),
+    ("pewlib.io.imzml.ImzML.image_size", "self"): ("alias", "returns the (int, int) tuple kept in its scan settings"),
+    ("pewlib.io.imzml.load", "imzml"): ("alias", "the parameter dict holds the pixel-size tuple of a pre-parsed ImzML argument"),
+    # --- NumPy semantics finer than the fresh/view table
+    ("pewlib.process.peakfinding.filter_peaks", "peaks"): ("alias", "peaks[~bad] is boolean-mask indexing (always a copy); the translator treats every subscript as a view"),
+}
+
+
+def static_waived(name, param, kind):
+    e = UNPROVED_STATIC.get((name, param))
+    return e is not None and kind in e[0].split("+")
+
+
 def alias_allowed(name, param, kind):
     if (name, param) in ALIAS_BASELINE:
         return True
@@ -78,6 +109,11 @@ def snap(o, depth=0):
         return ("dict", [(snap(k, depth + 1), snap(v, depth + 1)) for k, v in o.items()])
     if isinstance(o, (str, bytes, int, float, bool, type(None), Path, np.generic)):
         return ("s", repr(o))
+    if isinstance(o, (ElementTree.Element, ElementTree.ElementTree)):
+        root = o.getroot() if isinstance(o, ElementTree.ElementTree) else o
+        return ("xml", ElementTree.tostring(root) if root is not None else b"")
+    if inspect.isroutine(o) or inspect.isclass(o):
+        return ("o", repr(o))
     if hasattr(o, "__dict__"):
         return (type(o).__name__, [(k, snap(v, depth + 1)) for k, v in sorted(vars(o).items())])
     return ("o", repr(o))
@@ -124,6 +160,7 @@ class Maker:
     def __init__(self, rng, tmp):
         self.rng, self.tmp = rng, tmp
         self.np_rng = np.random.RandomState(rng.randint(0, 2 ** 31 - 1))
+        self.handles = []  # open files handed to the call; closed after the case
 
     def arr(self, shape, nan=0.1):
         r = self.rng.random()
@@ -345,19 +382,421 @@ def build_args(mk: Maker, qual, pnames, fn_sig):
     return vals
 
 
+# ----------------------------------------------------------------------------- the I/O readers and the peak finder
+NEW_MODULES = ("pewlib.io.agilent.", "pewlib.io.csv.", "pewlib.io.thermo.", "pewlib.io.imzml.", "pewlib.io.perkinelmer.",
+               "pewlib.process.peakfinding.")
+DEVICES_XML = ('<?xml version="1.0" encoding="utf-8"?>\n<Devices>\n  <Device DeviceID="1">\n    <Name>ICPMS</Name>\n'
+               '    <ModelNumber>G7201</ModelNumber>\n    <SerialNumber>JP1</SerialNumber>\n  </Device>\n</Devices>\n')
+
+
+def _median_base(w, axis=None):
+    return np.median(w, axis=axis)
+
+
+def _std_threshold(w, axis=None):
+    return 3.0 * np.std(w, axis=axis)
+
+
+def _box_wavelet(size, sigma):
+    return np.ones(int(size)) / max(int(size), 1)
+
+
+class InlineExecutor:
+    """stands in for ProcessPoolExecutor in pewlib.io.csv.load: tasks run at once in this process, so that anything a
+    task does to the objects it is handed stays visible to the snapshots (a process pool would pickle them)"""
+
+    def __init__(self, *a, **k):
+        pass
+
+    def submit(self, fn, /, *args, **kwargs):
+        import concurrent.futures
+
+        f = concurrent.futures.Future()
+        try:
+            f.set_result(fn(*args, **kwargs))
+        except BaseException as e:
+            f.set_exception(e)
+        return f
+
+    def map(self, fn, *iterables, timeout=None, chunksize=1):
+        return [fn(*a) for a in zip(*iterables)]
+
+    def shutdown(self, wait=True, cancel_futures=False):
+        pass
+
+    def __enter__(self):
+        return self
+
+    def __exit__(self, *exc):
+        return False
+
+
+def agilent_batch(mk):
+    """a small synthetic '.b' batch (harness/gen_agilent.py writers, layout of C02): n lines x R scans x k masses with
+    BatchLog.xml, BatchLog.csv, AcqMethod.xml, the binaries, the mass tables, one csv export per line, Devices.xml"""
+    from harness import gen_agilent as GA
+
+    rng = mk.rng
+    b = mk.tmp / "synthetic.b"
+    (b / "Method").mkdir(parents=True)
+    n, R, k = rng.choice([1, 2, 3]), rng.choice([2, 3, 5]), rng.choice([1, 2, 3])
+    names = [f"{i + 1:03d}.d" for i in range(n)]
+    elems = [("P", 31), ("Ca", 44), ("Eu", 153)][:k]
+    accs = ["0.1", "0.25", "1"][:k]
+    msms = rng.random() < 0.3
+    win = "D:\\DATA\\synthetic.b\\"
+    if rng.random() < 0.85:
+        GA.write_batch_xml(b / "Method" / "BatchLog.xml", [{"result": "Pass", "file": win + nm} for nm in names])
+    if rng.random() < 0.85:
+        GA.write_batch_csv(b / "BatchLog.csv", [{"id": i + 1, "file": win + nm, "result": "Pass"} for i, nm in enumerate(names)])
+    GA.write_acq_method(b / "Method" / "AcqMethod.xml", [{"name": e, "mz": m, "selected": m} for e, m in elems], msms,
+                        [{"id": i, "file": nm} for i, nm in enumerate(names)])
+    bc = 28 * k
+    for i, nm in enumerate(names):
+        d = b / nm
+        (d / "AcqData").mkdir(parents=True)
+        GA.write_msscan(d / "AcqData" / "MSScan.bin", [68 + r * bc for r in range(R)], [bc] * R,
+                        [(10 + 40 * r) / 60000.0 for r in range(R)], k)
+        vals = [[1000.0 * (i + 1) + 100 * r + j + 0.25 for j in range(k)] for r in range(R)]
+        GA.write_msprofile(d / "AcqData" / "MSProfile.bin",
+                           [[int(np.float64(v).view(np.int64)) for v in row] for row in vals], k)
+        GA.write_xspecific(d / "AcqData" / "MSTS_XSpecific.xml",
+                           [{"name": e, "mass": m, "acctime": accs[j]} for j, (e, m) in enumerate(elems)])
+        if msms or rng.random() < 0.3:
+            GA.write_xaddition(d / "MSTS_XAddition.xml", "MS_MS" if msms else "SingleQuad",
+                               [(j + 1, m, m + 16) for j, (e, m) in enumerate(elems)])
+        if rng.random() < 0.9:
+            GA.write_line_csv(d / (nm[:-2] + ".csv"),
+                              [win + nm, "Intensity Vs Time,CPS", "Acquired      : now using Batch synthetic.b",
+                               ",".join(["Time [Sec]"] + [f"{e}{m}" for e, m in elems])]
+                              + [",".join([f"{(10 + 40 * r) / 1000:.4f}"] + [f"{v:.2f}" for v in vals[r]]) for r in range(R)]
+                              + ["", "", "          Printed:now"])
+        (d / "AcqData" / "Devices.xml").write_text(DEVICES_XML)
+        head = bytearray(68)
+        head[0:4] = (275).to_bytes(4, "little")
+        (d / "AcqData" / "MSScan_XSpecific.bin").write_bytes(
+            bytes(head) + np.array([(0, float(m)) for e, m in elems], dtype=[("_", "<i4"), ("MZ", "<f8")]).tobytes())
+    return b, names, k
+
+
+def csv_dir(mk):
+    """a directory of per-line csv files in one of the four layouts (generator and writer of C04)"""
+    from harness import gen_csvdir as GC
+
+    case = GC.generate(mk.rng, "quick")
+    d = mk.tmp / "lines"
+    d.mkdir()
+    GC.write_dir(d, case)
+    return d, case
+
+
+def thermo_file(mk):
+    """one Qtegra export in the columns or the rows layout (generator and writer of C03; the very large ones skipped)"""
+    from harness import gen_thermo as GT
+
+    for _ in range(30):
+        case = GT.generate(mk.rng, "quick")
+        a = case["acq"]
+        if len(a["samples"]) * a["nscans"] * len(a["elements"]) <= 150:
+            break
+    layout = mk.rng.choice(["columns", "rows"])
+    p = mk.tmp / "export.csv"
+    GT.write(p, GT.table_cols(a) if layout == "columns" else GT.table_rows(a), case["delimiter"], case["eol"], case["bom"])
+    return p, case, layout
+
+
+def imzml_pair(mk):
+    """a small imzML / ibd pair (writer of C05 / C17): w x h pixels, sorted m/z axes, optional TIC and image size"""
+    from harness import gen_imzml as GI
+
+    rng = mk.rng
+    w, h = rng.choice([(1, 1), (2, 1), (2, 2), (3, 2)])
+    positions = [(x + 1, y + 1) for y in range(h) for x in range(w)]
+    npk = rng.choice([3, 5, 12])
+    specs = []
+    for _ in positions:
+        mz = sorted(round(100.0 + 400.0 * rng.random(), 3) for _ in range(npk))
+        specs.append({"mz": mz, "it": [float(rng.randint(0, 5000)) for _ in mz]})
+    mzdt, itdt = rng.choice(["f8", "f4"]), rng.choice(["f4", "f8"])
+    ibd, metas = GI.layout_ibd(specs, mzdt, itdt)
+    tics = [None if rng.random() < 0.5 else str(sum(sp["it"])) for sp in specs]
+    doc = GI.simple_doc(positions, tics, metas, size=None if rng.random() < 0.3 else (w, h), mzdt=mzdt, itdt=itdt,
+                        style=rng.randrange(GI.NSTYLES))
+    path = GI.write_pair(mk.tmp, doc, ibd)
+    return path, path.with_suffix(".ibd"), npk
+
+
+def perkinelmer_dir(mk):
+    """'Line N.xl' exports and parameters.conf in the layout of /repo/tests/data/perkinelmer"""
+    rng = mk.rng
+    d = mk.tmp / "elan"
+    d.mkdir()
+    n, m = rng.choice([1, 2, 3]), rng.choice([2, 3, 4])
+    for i in range(n):
+        rows = [f"{0.2 * j:.1f},{rng.randint(0, 99) / 10},{rng.randint(0, 99) / 10}" for j in range(m)]
+        (d / f"Line {i + 1}.xl").write_bytes(("Intensity Vs Time, Counts Per Second\r\nTime in Seconds ,A1,B2\r\n"
+                                              + "".join(r + "\r\n\r\n" for r in rows)).encode())
+    if rng.random() < 0.7:
+        (d / "parameters.conf").write_text("ablation.speed=0.100\nacquisition.time=0.200\nspace.interval=0.300\nother.key=v\n")
+    return d
+
+
+def peak_signal(mk, n=None):
+    """a 1-d trace with a few smooth peaks on a low noisy baseline"""
+    rng = mk.rng
+    n = n or rng.choice([60, 120, 200])
+    x = mk.np_rng.random_sample(n) * 0.5
+    t = np.arange(n, dtype=np.float64)
+    for _ in range(rng.choice([1, 2, 4])):
+        c, wd = rng.randint(8, n - 9), rng.choice([2.0, 3.0, 5.0])
+        x += rng.choice([20.0, 50.0, 100.0]) * np.exp(-0.5 * ((t - c) / wd) ** 2)
+    return x
+
+
+def peak_table(mk):
+    from pewlib.process import peakfinding as pf
+
+    rng = mk.rng
+    k = rng.choice([0, 1, 3, 5, 8])
+    peaks = np.zeros(k, dtype=pf.PEAK_DTYPE)
+    tops = np.cumsum([rng.choice([10, 10, 10, 21, 32]) for _ in range(k)])
+    peaks["top"], peaks["left"], peaks["right"] = tops, tops - 2, tops + 3
+    peaks["bottom"] = tops
+    peaks["width"] = 5.0
+    peaks["height"] = [rng.choice([1.0, 5.0, 50.0]) for _ in range(k)]
+    peaks["area"] = peaks["height"] * 3.0
+    return peaks
+
+
+def maybe_missing(mk, p, rate=0.1):
+    """now and then a path that does not exist: the call must fail without touching anything"""
+    return p.with_name(p.name + ".missing") if mk.rng.random() < rate else p
+
+
+def build_new_args(mk: Maker, qual, pnames, fn_sig):
+    """arguments for the functions of NEW_MODULES; real files come from the other properties' synthetic writers"""
+    rng = mk.rng
+    parts = qual.split(".")
+    short = parts[-1]
+    strpath = lambda p: str(p) if rng.random() < 0.25 else p  # noqa: E731   `str | Path` parameters
+    v = {}
+    if qual.startswith("pewlib.io.agilent."):
+        from pewlib.io import agilent
+
+        if short == "XSpecificMass":
+            return {"id": 1, "name": "P", "acctime": 0.1, "mz": 31, "mz2": rng.choice([None, 47])}
+        b, names, k = agilent_batch(mk)
+        d0 = b / rng.choice(names)
+        methods = rng.choice([None, ["batch_xml", "batch_csv"], ["batch_csv"], ["acq_method_xml", "alphabetical"],
+                              ["alphabetical"], ["bogus"], [], ["batch_csv", "batch_xml", "acq_method_xml", "alphabetical"]])
+        table = {
+            "acq_method_xml_read_datafiles": lambda: {"path": b, "acq_xml": maybe_missing(mk, b / "Method" / "AcqMethod.xml")},
+            "batch_csv_read_datafiles": lambda: {"path": b, "batch_csv": b / "BatchLog.csv"},
+            "batch_xml_read_datafiles": lambda: {"path": b, "batch_xml": b / "Method" / "BatchLog.xml"},
+            "collect_datafiles": lambda: {"path": strpath(b), "methods": methods if methods is not None else ["batch_xml"]},
+            "find_datafiles_alphabetical": lambda: {"path": strpath(maybe_missing(mk, b))},
+            "binary_read_datafile": lambda: {"path": d0, "masses": agilent.mass_info_datafile(d0)},
+            "binary_read_msscan": lambda: {"path": maybe_missing(mk, d0 / "AcqData" / "MSScan.bin")},
+            "binary_read_msscan_xspecific": lambda: {"path": maybe_missing(mk, d0 / "AcqData" / "MSScan_XSpecific.bin")},
+            "binary_read_msprofile": lambda: {"path": d0 / "AcqData" / "MSProfile.bin", "n": k if rng.random() < 0.8 else k + 1},
+            "mass_info_datafile": lambda: {"path": maybe_missing(mk, d0)},
+            "msts_xspecific_xml_read_info": lambda: {"path": d0 / "AcqData" / "MSTS_XSpecific.xml"},
+            "msts_xaddition_xml_read_info": lambda: {"path": d0 / "MSTS_XAddition.xml"},
+            "acq_method_xml_read_elements": lambda: {"path": b / "Method" / "AcqMethod.xml"},
+            "csv_valid_lines": lambda: {"csv": d0 / (d0.name[:-2] + ".csv")},
+            "read_datafile_csvs": lambda: {"datafiles": [b / nm for nm in names] + ([b / "999.d"] if rng.random() < 0.2 else [])},
+            "batch_xml_read_info": lambda: {"path": b / "Method" / "BatchLog.xml"},
+            "device_xml_read_info": lambda: {"path": d0 / "AcqData" / "Devices.xml"},
+            "load_info": lambda: {"path": strpath(b)},
+        }
+        if short in table:
+            return table[short]()
+        drop = rng.choice([None, [], ["Time"], ["Time_[Sec]"], ["P31", "Time"], ["nothing"]])
+        full = {"path": strpath(maybe_missing(mk, b, 0.05)), "collection_methods": methods,
+                "use_acq_for_names": rng.random() < 0.6, "counts_per_second": rng.random() < 0.5, "drop_names": drop,
+                "full": rng.random() < 0.8}
+        return {n: full[n] for n in pnames}
+    if qual.startswith("pewlib.io.csv."):
+        from pewlib.io import csv as pcsv
+
+        d, case = csv_dir(mk)
+        classes = {"nu": pcsv.NuOption, "ldr": pcsv.ThermoLDROption, "tofwerk": pcsv.TofwerkOption, "generic": pcsv.GenericOption}
+        files = sorted(p for p in d.iterdir())
+        rng.shuffle(files)
+        cls_name = parts[-2] if parts[-2].endswith("Option") else short
+        if "self" in pnames:
+            v["self"] = getattr(pcsv, cls_name)()
+        if short == "GenericOption":
+            return {"drop_names": rng.choice([None, [], ["Time"], ["A", "B"]]),
+                    "kw_genfromtxt": rng.choice([None, {}, {"skip_header": 1}, {"deletechars": "'"}]),
+                    "regex": rng.choice([r".*\.csv", r"line_\d+\.csv", "("]), "drop_nan_rows": rng.random() < 0.5,
+                    "drop_nan_columns": rng.random() < 0.5, "transposed": rng.random() < 0.2}
+        if short in ("NuOption", "ThermoLDROption", "TofwerkOption"):
+            return {}
+        if short in ("filter", "sort"):
+            v["paths"] = files if rng.random() < 0.8 else []
+        elif short == "validForPath":
+            v["path"] = rng.choice([d] + files)
+        elif short == "sortkey":
+            lines = [d / e["name"] for e in case["entries"] if e.get("role") == "line"]
+            v["path"] = rng.choice(lines if rng.random() < 0.8 else files)
+        elif short == "readParams":
+            names = {"NuOption": ("Cycle_time_(ms)", "x_[um]", "y_[um]", "A"), "ThermoLDROption": ("Time", "A"),
+                     "TofwerkOption": ("A", "t_elapsed_Buf")}.get(cls_name, ("A", "B"))
+            if rng.random() < 0.2:
+                names = ("A", "B")
+            data = mk.struct((3, 6), names)
+            for nm in names:
+                if nm != "A" and nm != "B":
+                    data[nm] = np.cumsum(np.ones((3, 6)), axis=1) * rng.choice([0.25, 2.0])
+            v["data"] = data
+        elif short in ("is_valid_directory", "option_for_path"):
+            v["path"] = strpath(rng.choice([d, d, d / "nothing", files[0]]))
+        elif short == "load":
+            opt = None if case["auto"] else classes[case["vendor"]]()
+            if rng.random() < 0.15:
+                opt = pcsv.GenericOption(drop_names=["A"], kw_genfromtxt={"skip_header": 0})
+            v.update(path=strpath(d), option=opt, full=rng.random() < 0.8)
+        return {n: v[n] for n in pnames}
+    if qual.startswith("pewlib.io.thermo."):
+        p, case, layout = thermo_file(mk)
+        want = "columns" if "columns" in short else "rows" if "rows" in short else layout
+        if want != layout and rng.random() < 0.8:  # mostly the matching layout; the other one makes the reader fail
+            from harness import gen_thermo as GT
+
+            a = case["acq"]
+            GT.write(p, GT.table_cols(a) if want == "columns" else GT.table_rows(a), case["delimiter"], case["eol"], case["bom"])
+        full = {"path": strpath(maybe_missing(mk, p, 0.05)), "delimiter": case["delimiter"] if case["explicit_delimiter"] else None,
+                "comma_decimal": case["decimal"] == ",", "use_analog": case["use_analog"], "full": rng.random() < 0.8}
+        return {n: full[n] for n in pnames}
+    if qual.startswith("pewlib.io.perkinelmer."):
+        d = perkinelmer_dir(mk)
+        full = {"path": strpath(rng.choice([d, d, d, d / "nothing"])), "import_parameters": rng.random() < 0.7, "full": rng.random() < 0.8}
+        return {n: full[n] for n in pnames}
+    if qual.startswith("pewlib.io.imzml."):
+        from pewlib.io import imzml as pim
+
+        if short in ("is_imzml", "is_imzml_binary_data"):
+            return {"path": strpath(Path(rng.choice(["a.imzML", "b.IBD", "c.ibd", "d.txt", "e.imzxml"])))}
+        if short == "ScanSettings":
+            return {"image_size": rng.choice([None, (2, 3)]), "pixel_size": (30.0, 30.0)}
+        if short == "Spectrum":
+            return {"pos": (1, 2), "tic": rng.choice([None, 10.0]), "offsets": {"mzArray": 16, "intensities": 40},
+                    "lengths": {"mzArray": 24, "intensities": 12}}
+        if short == "ParamGroup":
+            return {"id": "mzArray", "dtype": rng.choice([np.float32, np.float64]), "compressed": False, "external": True}
+        path, ibd, npk = imzml_pair(mk)
+        fast = rng.random() < 0.5
+        parsed = pim.ImzML.from_file(path, use_fast_parse=fast)
+        et = ElementTree.parse(path)
+        find = lambda q: et.findall(q, pim.MZML_NS)  # noqa: E731
+        cls_name = parts[-2]
+        if "self" in pnames:
+            v["self"] = {"ImzML": parsed, "ScanSettings": parsed.scan_settings, "ParamGroup": parsed.mz_params,
+                         "Spectrum": rng.choice(list(parsed.spectra.values()))}[cls_name]
+        if short == "from_xml_element":
+            q = {"ScanSettings": "mz:scanSettingsList/mz:scanSettings", "Spectrum": "mz:run/mz:spectrumList/mz:spectrum",
+                 "ParamGroup": "mz:referenceableParamGroupList/mz:referenceableParamGroup"}[cls_name]
+            v["element"] = rng.choice(find(q))
+            v["scan_number"] = rng.choice([1, 1, 2])
+        elif short == "get_binary_data":
+            grp = rng.choice([parsed.mz_params, parsed.intensity_params])
+            fh = None
+            if rng.random() < 0.6:
+                fh = ibd.open("rb")
+                mk.handles.append(fh)
+            v.update(reference_id=rng.choice([grp.id, grp.id, "bogus"]), dtype=grp.dtype,
+                     external_binary=fh if fh is not None else rng.choice([ibd, None]))
+        elif short == "ImzML":
+            sp = list(parsed.spectra.values())
+            v.update(scan_settings=parsed.scan_settings, mz_params=parsed.mz_params, intensity_params=parsed.intensity_params,
+                     spectra=sp if rng.random() < 0.5 else dict(parsed.spectra), external_binary=strpath(ibd))
+        elif short == "from_etree":
+            v.update(et=et, external_binary=strpath(ibd), scan_number=rng.choice([1, 1, 2]))
+        elif short == "from_file":
+            v.update(path=strpath(maybe_missing(mk, path)), external_binary=rng.choice([None, None, strpath(ibd)]), use_fast_parse=fast)
+        elif short == "extract_masses":
+            tm = rng.choice([np.array([150.0, 300.0, 450.0]), np.array([200.0]), 250.0, np.array([[120.0, 480.0]])])
+            wd = rng.choice([(10000.0, None), (50000.0, None), (None, 5.0), (None, 80.0), (None, None), (10.0, 1.0)])
+            v.update(target_masses=tm, mass_width_ppm=wd[0], mass_width_mz=wd[1])
+        elif short == "binned_masses":
+            v["mass_width_mz"] = rng.choice([50.0, 100.0, 7.5])
+        elif short == "untargeted_extraction":
+            v.update(num=rng.choice([2, 3, npk, 10]), precision_mz=rng.choice([1.0, 50.0]), min_pixel_count=rng.choice([0, 1, 10]),
+                     min_height_fraction=0.1, min_height_absolute=rng.choice([0.0, 100.0]))
+        elif short == "load":
+            v.update(imzml=rng.choice([path, str(path), parsed]), external_binary=strpath(ibd),
+                     target_masses=rng.choice([200.0, np.array([150.0, 300.0])]), mass_width_ppm=rng.choice([10.0, 50000.0]))
+        elif short == "fast_parse_imzml":
+            seen = []
+            cb = rng.choice([None, None, lambda pos: seen.append(pos) or True, lambda pos: len(seen) < 1 and not seen.append(pos)])
+            v.update(imzml=strpath(path), external_binary=strpath(ibd), callback=cb)
+        return {n: v[n] for n in pnames if n != "cls"}
+    if qual.startswith("pewlib.process.peakfinding."):
+        from pewlib.process import peakfinding as pf
+
+        x = peak_signal(mk)
+        base_m = rng.choice(["baseline", "edge", "minima", "prominence", "zero", "bogus"])
+        height_m = rng.choice(["maxima", "center", "maxima"])
+        mins = {"peak_min_area": rng.choice([0.0, 10.0]), "peak_min_height": rng.choice([0.0, 5.0]), "peak_min_width": rng.choice([0.0, 3.0])}
+        if short == "cwt":
+            return {"x": x, "windows": np.arange(2, rng.choice([4, 8])), "wavelet": rng.choice([pf.ricker_wavelet, _box_wavelet])}
+        if short == "ricker_wavelet":
+            return {"size": rng.choice([1, 10, 31]), "sigma": rng.choice([1.0, 2.5])}
+        if short == "find_peaks_cwt":
+            return {"x": x, "min_midth": 2, "max_width": rng.choice([6, 10]), "ridge_gap_threshold": rng.choice([None, 2]),
+                    "ridget_min_length": rng.choice([None, 1]), "ridge_min_snr": rng.choice([9.0, 1.0]), "width_factor": 2.5,
+                    "peak_base_method": base_m, "peak_height_method": height_m, **mins}
+        if short == "find_peaks_windowed":
+            return {"x": x, "size": rng.choice([9, 20, 31]), "baseline": rng.choice([_median_base, np.mean]),
+                    "threshold": rng.choice([_std_threshold, np.std]), "peak_base_method": base_m, "peak_height_method": height_m, **mins}
+        if short == "insert_missing_peaks":
+            return {"peaks": peak_table(mk), "distance": rng.choice([None, 11.0]), "param": rng.choice(["top", "left", "bogus"]),
+                    "missing_peak_area": rng.choice([0.0, 1.5])}
+        if short == "filter_peaks":
+            return {"peaks": peak_table(mk), "min_area": rng.choice([0.0, 10.0]), "min_height": rng.choice([0.0, 5.0]),
+                    "min_width": rng.choice([0.0, 6.0])}
+        if short == "peaks_from_edges":
+            k = rng.choice([1, 2, 4])
+            lefts = np.sort(mk.np_rng.choice(np.arange(2, x.size - 12), size=k, replace=False))
+            rights = lefts + mk.np_rng.randint(2, 9, size=k)
+            if rng.random() < 0.25:  # an edge outside the trace
+                lefts[0], rights[-1] = rng.choice([(-3, rights[-1]), (lefts[0], x.size + 4), (-1, x.size)])
+            return {"x": x, "lefts": lefts, "rights": rights, "base_method": base_m, "height_method": rng.choice(["maxima", "center", "bogus"]),
+                    "baseline": rng.choice([None, np.full(x.size, 0.25)])}
+    raise KeyError(f"no factory for {qual}")
+
+
 class C19(Prop):
     id = "C19"
     anchored = ["src/pewlib/" + m.split("pewlib.")[1].replace(".", "/") + ".py" for m in T.INVENTORY_MODULES]
     cases = {"quick": 500, "thorough": 6000}
     rule = ("one targeted case per inventoried public function/method (static obligation for every parameter + one dynamic call), "
+            "24 (thorough: 149) more for every function with a pair in UNPROVED_STATIC (dynamic-only pairs), "
             "then random (function, argument seed) pairs; non-trivial = the call actually ran pewlib code with at least one "
             "array/list/dict/object argument; distinct by (function, argument seed)")
     trusted = ["harness/effects/translate.py (Python AST -> effect IR) and its tables of NumPy/stdlib calls returning fresh memory, "
                "views, or writing an argument; `.copy()` is assumed to be ndarray.copy; duck-typed method calls are resolved by name "
                "over pewlib's own classes; a parameter and everything reachable from it is one region (own/reach split)",
+               "translator, typing: annotations are trusted where they name an ndarray/scalar/str, a builtin container, an "
+               "ElementTree Element/ElementTree, a pewlib class (parameters, results of inlined functions, `self.f = <annotated "
+               "__init__ parameter>` when nothing else in the program assigns an attribute `f`) or `list[<pewlib class>]`: method and "
+               "property lookups on such values use that class hierarchy (with subclass overrides) instead of the name tables; "
+               "objects returned by ElementTree.parse/fromstring are fresh, their find/findall/iter/iterfind/getroot return parts, "
+               "findtext/itertext/get/keys/items/tag/text/tail return str; compiled-pattern match/search/fullmatch are pure; "
+               "Executor.submit(f, *a) is the call f(*a); sorted/min/max/list.sort(key=f) and map/filter(f, xs) apply f to the items "
+               "(lambdas are translated in place with their parameter bound to the items, anywhere else with an unknown argument; "
+               "their free variables are read when the lambda is created); a name bound only to pewlib functions, or a pewlib function "
+               "passed by name to an inlined callee, is called as a branch over those functions; a call of any other function-valued "
+               "parameter is an unknown call; str()/f-strings run __str__ only for values of a known pewlib class",
                "the theorems are about the IR semantics (Pew.Effects.Exec); fidelity of the translation is validated only by the "
                "dynamic snapshot run: every observed write / memory sharing must have been predicted by the analysis"]
     assumptions = ["writes performed inside C extensions on buffers the table calls fresh are not visible",
+                   "UNPROVED_STATIC in harness/c19.py lists the (function, parameter) pairs that rest on the dynamic calls alone "
+                   "(user callbacks, an open file handle's position, results holding the caller's immutable Path/tuple objects, "
+                   "boolean-mask indexing); they are not counted as static obligations and permit nothing at run time",
+                   "pewlib.io.csv.load is called with an in-process stand-in for ProcessPoolExecutor, so that what a reader task "
+                   "does to its arguments is observable",
                    "ALLOWED_WRITES / ALIAS_BASELINE in harness/c19.py are the documented mutators and the reviewed alias baseline"]
 
     def __init__(self):
@@ -377,32 +816,67 @@ class C19(Prop):
         """the per-(function, parameter) obligations computed by the Lean analysis on the regenerated IR"""
         d = core.Driver()
         try:
-            n = ok = 0
-            broken, unknown_calls = [], []
+            n = ok = pairs = 0
+            broken, unknown_calls, unproved, stale = [], [], [], []
             for name, f in sorted(self.inv().items()):
                 rep = d.call("c19.analyse", np=f["np"], prog=f["ir"])
                 w = {f["params"][i] for i in rep["write"]}
                 r = {f["params"][i] for i in rep["ret"]}
                 unknown_calls += [f"{name}: {x}" for x in f["diag"]]
                 for p in f["params"]:
+                    pairs += 1
+                    good = (p not in w or (name, p) in ALLOWED_WRITES or static_waived(name, p, "write")) \
+                        and (p not in r or alias_allowed(name, p, f["kind"]) or static_waived(name, p, "alias"))
+                    if (name, p) in UNPROVED_STATIC and good:
+                        kinds, why = UNPROVED_STATIC[(name, p)]
+                        needed = (p in w and "write" in kinds) or (p in r and "alias" in kinds)
+                        (unproved if needed else stale).append(f"{name}({p}) [{kinds}]: {why}")
+                        if needed:
+                            continue  # not an obligation of the static half: only the dynamic calls apply to this pair
                     n += 1
-                    good = (p not in w or (name, p) in ALLOWED_WRITES) and (p not in r or alias_allowed(name, p, f["kind"]))
                     ok += good
                     if not good:
                         broken.append(f"{name}({p})")
+            known = {(name, p) for name, f in self.inv().items() for p in f["params"]}
+            stale += [f"{k[0]}({k[1]}): no such function/parameter" for k in sorted(UNPROVED_STATIC) if k not in known]
         finally:
             d.close()
         return {"obligations": n, "discharged": ok,
-                "coverage": {"inventoried_functions": len(self.inv()), "function_parameter_obligations": n,
-                             "obligations_broken": broken[:50], "translator_unknown_calls": sorted(set(unknown_calls))[:50]}}
+                "coverage": {"inventoried_functions": len(self.inv()), "function_parameter_pairs": pairs,
+                             "function_parameter_obligations": n, "obligations_broken": broken[:50],
+                             "static_unproved_dynamic_only": unproved, "static_unproved_entries_not_needed": stale,
+                             "translator_unknown_calls": sorted(set(unknown_calls))[:50]}}
 
     def targeted(self, tier):
         for name in sorted(self.inv()):
             yield {"func": name, "aseed": 0}
+        # the pairs the static half cannot decide rest on the dynamic calls alone: many more of those
+        for name in sorted({k[0] for k in UNPROVED_STATIC} & set(self.inv())):
+            for a in range(1, 25 if tier == "quick" else 150):
+                yield {"func": name, "aseed": a}
 
     def generate(self, rng, tier):
         names = sorted(self.inv())
         return {"func": rng.choice(names), "aseed": rng.randint(1, 10 ** 6)}
+
+    def search_extra(self, tier):
+        """failing-input search: many argument seeds for exactly the functions whose static obligations are broken"""
+        d = core.Driver()
+        try:
+            suspects = []
+            for name, f in sorted(self.inv().items()):
+                rep = d.call("c19.analyse", np=f["np"], prog=f["ir"])
+                w = [f["params"][i] for i in rep["write"]]
+                r = [f["params"][i] for i in rep["ret"]]
+                if any((name, p) not in ALLOWED_WRITES and not static_waived(name, p, "write") for p in w) \
+                        or any(not alias_allowed(name, p, f["kind"]) and not static_waived(name, p, "alias") for p in r):
+                    suspects.append(name)
+        finally:
+            d.close()
+        per = max(40, (1500 if tier == "quick" else 6000) // max(1, len(suspects)))
+        for s in range(per):
+            for name in suspects:
+                yield {"func": name, "aseed": 10 ** 6 + 1 + s}
 
     def known(self, case, out):
         return None
@@ -420,34 +894,50 @@ class C19(Prop):
         rep = ctx.driver.call("c19.analyse", np=f["np"], prog=f["ir"])
         st_w = sorted(pnames[i] for i in rep["write"])
         st_r = sorted(pnames[i] for i in rep["ret"])
-        bad_w = [p for p in st_w if (name, p) not in ALLOWED_WRITES]
-        bad_r = [p for p in st_r if not alias_allowed(name, p, kind)]
+        bad_w = [p for p in st_w if (name, p) not in ALLOWED_WRITES and not static_waived(name, p, "write")]
+        bad_r = [p for p in st_r if not alias_allowed(name, p, kind) and not static_waived(name, p, "alias")]
         model = {"static_write_outside_allowed": bad_w, "static_alias_outside_baseline": bad_r}
         # ---- dynamic call
         rng = random.Random(f"c19:{name}:{case['aseed']}")
         tmp = ctx.tmpdir()
         mk = Maker(rng, tmp)
         feats = {"kind:" + kind}
-        try:
-            args = build_args(mk, name, pnames, f["sig"])
-        except KeyError as e:
-            raise core.InternalError(str(e))
-        args = self.paths(name, args, mk, tmp)
-        before = {k: snap(v) for k, v in args.items()}
-        raised = None
-        result = None
+        import logging
         import warnings
         warnings.simplefilter("ignore")
         np.seterr(all="ignore")
-        saved_perm = np.random.get_state()
-        np.random.seed(rng.randint(0, 2 ** 31 - 1))
+        logging.disable(logging.CRITICAL)  # the readers log (and print tracebacks of) the failures they recover from
         try:
-            result = self.invoke(name, kind, args)
-        except Exception as e:  # arguments that make the call fail are part of the quantifier
-            raised = type(e).__name__
+            try:
+                args = build_new_args(mk, name, pnames, f["sig"]) if name.startswith(NEW_MODULES) \
+                    else build_args(mk, name, pnames, f["sig"])
+            except KeyError as e:
+                raise core.InternalError(str(e))
+            args = self.paths(name, args, mk, tmp)
+            before = {k: snap(v) for k, v in args.items()}
+            raised = None
+            result = None
+            saved_perm = np.random.get_state()
+            np.random.seed(rng.randint(0, 2 ** 31 - 1))
+            import pewlib.io.csv as pcsv
+            old_exec = getattr(pcsv, "ProcessPoolExecutor", None)
+            if old_exec is not None:
+                pcsv.ProcessPoolExecutor = InlineExecutor
+            try:
+                result = self.invoke(name, kind, args)
+                if inspect.isgenerator(result):  # csv_valid_lines, read_datafile_csvs: the body runs when iterated
+                    result = list(result)
+            except Exception as e:  # arguments that make the call fail are part of the quantifier
+                raised = type(e).__name__
+            finally:
+                np.random.set_state(saved_perm)
+                if old_exec is not None:
+                    pcsv.ProcessPoolExecutor = old_exec
+            after = {k: snap(v) for k, v in args.items()}
         finally:
-            np.random.set_state(saved_perm)
-        after = {k: snap(v) for k, v in args.items()}
+            logging.disable(logging.NOTSET)
+            for h in mk.handles:
+                h.close()
         changed = sorted(k for k in args if before[k] != after[k])
         aliased = []
         if raised is None and result is not None:
@@ -465,6 +955,8 @@ class C19(Prop):
                 "raised": raised is not None}
         spec = {"changed_outside_allowed": [], "aliased_outside_baseline": [], "raised": raised is not None}
         feats.add("raised" if raised else "returned")
+        if name.startswith(NEW_MODULES):
+            feats.add("module:" + name.split(".")[2])
         if any(isinstance(v, (np.ndarray, list, dict)) or hasattr(v, "__dict__") for v in args.values()):
             feats.add("has-mutable-arg")
         if changed:
